@@ -564,6 +564,12 @@ def np_flatnonzero(a):
 
 def np_where(cond, x=None, y=None):
     cond = _unlazy(cond)
+    if type(cond).__module__ == 'symnp.sparse' or type(cond).__name__ == 'SymCOO':
+        # NumPy sees a sparse matrix as a 0-d object array
+        if x is None and y is None:
+            raise ValueError('Calling nonzero on 0d arrays is not allowed. Use np.atleast_1d(scalar).nonzero() instead. '
+                             'If the context of this error is of the form `arr[nonzero(cond)]`, just use `arr[cond]`.')
+        raise Unsupported('np.where(sparse, x, y)')
     if x is None and y is None:
         c = _as_sarr(cond)
         if c.ldtype.kind != 'b':
@@ -992,8 +998,22 @@ def _structural(name):
                 return type(x)(conv(y) for y in x) if not has_sym([y for y in x if isinstance(y, SVal)]) \
                     else conv(np_array(list(x)))
             return x
-        a2 = [conv(a) for a in args]
-        k2 = {k: conv(v) for k, v in kw.items()}
+        # parameters that are counts / positions / shapes, not data: concrete integers go in as integers
+        CTRL = {'repeat': (1, 'repeats'), 'take': (1, 'indices'), 'tile': (1, 'reps'), 'roll': (1, 'shift'), 'delete': (1, 'obj'),
+                'insert': (1, 'obj'), 'array_split': (1, 'indices_or_sections'), 'split': (1, 'indices_or_sections'),
+                'broadcast_to': (1, 'shape')}.get(name)
+
+        def ctrl(x):
+            x = _unlazy(x)
+            if isinstance(x, SArr):
+                if not x.is_concrete():
+                    raise Unsupported('%s with a symbolic count/position argument' % name)
+                return x.typed()
+            if isinstance(x, SInt):
+                return operator.index(x)
+            return x
+        a2 = [ctrl(a) if (CTRL and i == CTRL[0]) else conv(a) for i, a in enumerate(args)]
+        k2 = {k: (ctrl(v) if (CTRL and k == CTRL[1]) else conv(v)) for k, v in kw.items()}
         r = real(*a2, **k2)
         odt = _np.result_type(*[_np.empty(0, d) for d in dts]) if dts and all(d.kind != 'O' for d in dts) else _np.dtype(object)
 
